@@ -3,7 +3,7 @@ import Std.Data.HashMap
 /-!
 Line driver for C27 (cross-chain merkle paths).  Hashes are names as in `Driver/C26.lean`:
 
-* atom `i < A` is `HashLeaf(dataOf i)` with `dataOf i = "c27" ‖ be32(i) ‖ (250 × 0xAA if i % 16 = 5)`;
+* atom `i < A` is `HashLeaf(dataOf i)` with `dataOf i = "c27" ‖ be32(i) ‖ padding` (250 × 0xAA if i % 16 = 5; 0xBB up to 32 / 31 / 33 bytes if i % 16 = 7 / 8 / 9);
 * `T = l.r,l.r,…` names `A+j := HashChildren(name l, name r)`;
 * `K = name:hex64,…` tells which raw 32-byte strings (inside path bytes) are which named hash.
 
@@ -58,7 +58,12 @@ def be32 (i : Nat) : Bytes :=
   [UInt8.ofNat (i / 16777216 % 256), UInt8.ofNat (i / 65536 % 256), UInt8.ofNat (i / 256 % 256), UInt8.ofNat (i % 256)]
 
 def dataOf (i : Nat) : Bytes :=
-  [0x63, 0x32, 0x37] ++ be32 i ++ (if i % 16 = 5 then List.replicate 250 0xAA else [])
+  [0x63, 0x32, 0x37] ++ be32 i ++
+    (if i % 16 = 5 then List.replicate 250 0xAA
+     else if i % 16 = 7 then List.replicate 25 0xBB      -- exactly 32 bytes: as long as a hash
+     else if i % 16 = 8 then List.replicate 24 0xBB      -- 31 bytes
+     else if i % 16 = 9 then List.replicate 26 0xBB      -- 33 bytes
+     else [])
 
 def fromBE : Bytes → Nat → Nat
   | [], acc => acc
